@@ -55,6 +55,7 @@ type c15Event struct {
 type c15Input struct {
 	Clients []c15Client `json:"clients"`
 	Events  []c15Event  `json:"events"`
+	Rep     int         `json:"rep,omitempty"` // run the scenario this many times on fresh state (map orders vary)
 }
 
 type c15Step struct {
@@ -141,6 +142,20 @@ func c15Exec(raw json.RawMessage) interface{} {
 	if err := json.Unmarshal(raw, &in); err != nil {
 		return map[string]string{"error": "bad-input"}
 	}
+	if in.Rep <= 1 {
+		return c15ExecOnce(in)
+	}
+	if in.Rep > 16 {
+		in.Rep = 16
+	}
+	runs := make([]c15Obs, 0, in.Rep)
+	for k := 0; k < in.Rep; k++ {
+		runs = append(runs, c15ExecOnce(in))
+	}
+	return map[string]interface{}{"runs": runs}
+}
+
+func c15ExecOnce(in c15Input) c15Obs {
 	b := c15GetBroker()
 	b.topicMgr = newTopicManager(64)
 	clients := map[string]*Client{}
@@ -277,7 +292,7 @@ func c15GenTopic(r *verifh.Rand) string {
 }
 
 func c15Gen(r *verifh.Rand, i int) interface{} {
-	in := c15Input{}
+	in := c15Input{Rep: 3}
 	n := r.Range(2, 6)
 	var ids []string
 	for k := 0; k < n; k++ {
